@@ -403,6 +403,16 @@ let () =
                        else if abs_float (fv -. ex) > 1e-9 *. abs_float ex then
                          fail p.pstep "C12" "prop" (Printf.sprintf "sat_count(%d) as f64 = %h, exact %s" vars fv (Z.to_string exact))))
                  | None -> stat "unresolved" 1)
+              (* TDD: the implementation's eval over all 3^n ternary assignments = the extracted interpreter on the snapshot *)
+              | [ "T3EVAL"; a ] ->
+                (match split_ws p.pres, get a with
+                 | "vt3" :: _ :: vals, Some tab when List.length vals = Array.length tab ->
+                   check "C08"; stat "c08_tdd_evals" 1;
+                   if List.map int_of_string vals <> Array.to_list tab then
+                     fail p.pstep "C08" "prop"
+                       (Printf.sprintf "%s: eval over all ternary assignments gives [%s], the diagram denotes %s" what
+                          (String.concat "" vals) (show_vt tab))
+                 | _ -> stat "unresolved" 1)
               | ("PICK" | "PICKDD" | "PICKSET" | "PICKUNI") :: _ -> Pick.check ~kname ~n ~ps ~get ~getd ~fail ~check p.pstep t p.pres
               | (("SINGLETON" | "EMPTY" | "BASE" | "SUBSET0" | "SUBSET1" | "CHANGE" | "UNION" | "INTSEC" | "DIFF" | "MAKENODE") as op) :: dst :: rest ->
                 (* operand families as captured when the op was issued (the destination may alias an operand);
@@ -591,7 +601,7 @@ let () =
         (* C09: a snapshot, add_vars(k), a snapshot: replay add_vars on the extracted model *)
         (* C08: a snapshot, level_down(i), a snapshot: replay the swap on the extracted level_swap (BDD, MTBDD) *)
         (match !since, !prev_ps with
-         | [ ld ], Some pp when (kname = "bdd" || kname = "mtbdd" || kname = "bcdd") && List.mem "C08" !props && starts_with ld "LEVELDOWN " ->
+         | [ ld ], Some pp when (kname = "bdd" || kname = "mtbdd" || kname = "bcdd" || kname = "tdd") && List.mem "C08" !props && starts_with ld "LEVELDOWN " ->
            check "C08";
            (match Lswap.check ~kname pp ps (int_of_string (String.sub ld 10 (String.length ld - 10))) with
             | Ok () -> ()
@@ -610,7 +620,7 @@ let () =
             | Some (Error (kind, m)) -> check "C08"; fail step "C08" kind m)
          (* a snapshot, set_var_order(_seq), a snapshot: replay on the extracted set_var_order_model; the
             concurrent variant (several workers and >= 65536 nodes) performs the swaps in no fixed order *)
-         | [ od ], Some pp when (kname = "bdd" || kname = "mtbdd" || kname = "bcdd") && List.mem "C08" !props && starts_with od "ORDER "
+         | [ od ], Some pp when (kname = "bdd" || kname = "mtbdd" || kname = "bcdd" || kname = "tdd") && List.mem "C08" !props && starts_with od "ORDER "
                                 && (pp.inner < 65536 || param_int c "threads" 1 = 1) ->
            (match Lswap.check_order ~kname pp ps (List.map int_of_string (List.tl (split_ws od))) with
             | None -> ()
@@ -742,7 +752,7 @@ let () =
                 let p = mkpend i toks res [ slot_of dt; slot_of de ] in
                 if not (starts_with res "none") then (invalidate (slot_of dt); invalidate (slot_of de));
                 pending := p :: !pending
-              | ("EVAL" | "NC" | "EQ" | "SAT" | "PICK" | "PICKUNI" | "SATVALID") :: _ ->
+              | ("EVAL" | "NC" | "EQ" | "SAT" | "PICK" | "PICKUNI" | "SATVALID" | "T3EVAL") :: _ ->
                 pending := mkpend i toks res [] :: !pending
               | ("AEX" | "AFA" | "AUQ") :: _ :: dst :: _ ->
                 let p = mkpend i toks res [ slot_of dst ] in
